@@ -268,6 +268,12 @@ func main() {
 	// 7. outputs
 	facts := map[string]interface{}{"functions": len(names), "fields": len(fieldOrder), "accesses": len(rows),
 		"violations": violList, "held_while_waiting_on_loop": heldWhileWaiting, "locks_taken_by_loop": loopLocks}
+	// 6b. lock nesting (locks.go)
+	lprog := loadLockProg(*repo)
+	lfacts := analyseLocks(lprog)
+	lfacts.addFacts(facts)
+	sfacts := analyseSessionFields(lprog)
+	sfacts.addFacts(facts)
 	fb, _ := json.MarshalIndent(facts, "", " ")
 	_ = os.WriteFile(filepath.Join(*out, "facts.json"), fb, 0o644)
 
@@ -305,9 +311,14 @@ func main() {
 		p := strings.SplitN(h, "|", 3)
 		fmt.Fprintf(&sb, "  (%q, %q, %q),\n", p[0], p[1], p[2])
 	}
-	sb.WriteString("]\n\nend Rain.Generated.Access\n")
+	sb.WriteString("]\n")
+	lfacts.lean(&sb)
+	sfacts.lean(&sb)
+	sb.WriteString("\nend Rain.Generated.Access\n")
 	_ = os.WriteFile(filepath.Join(*out, "Access.lean"), []byte(sb.String()), 0o644)
 	fmt.Printf("extract: %d functions, %d fields, %d accesses, %d violating (function, field) pairs\n", len(names), len(fieldOrder), len(rows), len(violList))
+	fmt.Printf("extract: %d locks, %d nesting edges (%d loop-carried), %d cycle(s), %d unresolved lock expression(s)\n", len(lfacts.locks), len(lfacts.edges), len(lfacts.loopEdges), len(lfacts.cycles), len(lfacts.unresolved))
+	fmt.Printf("extract: %d guarded Session fields, %d accesses, %d (function, field) pairs without the guard outside construction\n", len(sfacts.fields), len(sfacts.rows), len(sfacts.violations))
 }
 
 func closure(fns map[string]*fnInfo, roots []string, followGo bool) map[string]bool {
